@@ -9,8 +9,8 @@
 (*   C19 collateral equation                                                          *)
 EXTENDS LedgerRules, TraceLib
 F == INSTANCE Fees
-VARIABLES l, env, pp, keys, byron, balanced, feeReq, lastTx, colSt, colPct, scripts, attach, sdhFresh, rereg
-vars == <<l, env, pp, keys, byron, balanced, feeReq, lastTx, colSt, colPct, scripts, attach, sdhFresh, rereg>>
+VARIABLES l, env, pp, keys, byron, balanced, stale, feeReq, lastTx, colSt, colPct, scripts, attach, sdhFresh, rereg
+vars == <<l, env, pp, keys, byron, balanced, stale, feeReq, lastTx, colSt, colPct, scripts, attach, sdhFresh, rereg>>
 \* ---- addresses (structure only; the full classification is Address.tla, C11)
 IsByronAddr(a) == a # <<>> /\ a[1] \div 16 = 8
 \* Shelley address with a key payment credential: header types 0,2 (base), 4 (pointer), 6 (enterprise); bit 4 set = script
@@ -45,7 +45,7 @@ VKeysNeeded(body, ws) ==
    \* key-hash voters of body[19]: voter = [type, hash], types 0 (committee hot key), 2 (DRep key), 4 (stake pool)
    \cup (IF HasK(body, 19) THEN LET v == GetK(body, 19) IN {v.kids[2*j-1].kids[2].str : j \in {i \in 1..(Len(v.kids) \div 2) : Small(v.kids[2*i-1].kids[1].arg) \in {0, 2, 4}}} ELSE {})
    \* native scripts provided at reference inputs
-   \cup UNION {NativeLeaves(Parse(b)) : b \in {x \in DOMAIN scripts : scripts[x].kind = "native" /\
+   \cup UNION {NativeLeaves(Parse(b[2])) : b \in {x \in DOMAIN scripts : scripts[x].kind = "native" /\
                   \E j \in 1..Len(Elems(body,18)) : InputKey(Elems(body,18)[j]) \in DOMAIN env /\ env[InputKey(Elems(body,18)[j])].rsh = scripts[x].hash}}
 ByronNeeded(body) == SpentByron(body, 0) \cup SpentByron(body, 13)
 \* ---- events
@@ -59,9 +59,10 @@ Reset(e) ==
             ex |-> Get(e.pp, "ex", <<0, 1, 0, 1>>), ref |-> Get(e.pp, "ref", <<0, 1>>)]
   /\ keys' = [v \in {e.keys[i].vkey : i \in 1..Len(e.keys)} |-> (CHOOSE x \in {e.keys[i] : i \in 1..Len(e.keys)} : x.vkey = v).hash]
   /\ byron' = [a \in {e.byron[i].addr : i \in 1..Len(e.byron)} |-> (CHOOSE x \in {e.byron[i] : i \in 1..Len(e.byron)} : x.addr = a).vkey]
-  /\ balanced' = FALSE /\ feeReq' = <<"none">> /\ lastTx' = <<>> /\ colSt' = "unset" /\ colPct' = <<>>
+  /\ balanced' = FALSE /\ stale' = FALSE /\ feeReq' = <<"none">> /\ lastTx' = <<>> /\ colSt' = "unset" /\ colPct' = <<>>
   \* script table: bytes -> hash (re-checked with hashlib by the orchestrator); redeemer attachments per purpose
-  /\ scripts' = IF Has(e, "scripts") THEN [b \in {e.scripts[i].bytes : i \in 1..Len(e.scripts)} |-> (CHOOSE x \in {e.scripts[i] : i \in 1..Len(e.scripts)} : x.bytes = b)] ELSE <<>>
+  \* the script table is keyed by <<language (0 = native), bytes>>: the same compiled code under two Plutus versions is two scripts with two hashes
+  /\ scripts' = IF Has(e, "scripts") THEN [b \in {<<e.scripts[i].lang, e.scripts[i].bytes>> : i \in 1..Len(e.scripts)} |-> (CHOOSE x \in {e.scripts[i] : i \in 1..Len(e.scripts)} : x.lang = b[1] /\ x.bytes = b[2])] ELSE <<>>
   /\ attach' = [p \in 0..4 |-> {}] /\ sdhFresh' = <<>> /\ rereg' = FALSE
 Balancing == {"AddChange", "AddInputsFromAndChange", "AddInputsFromAndChangeWithCollateralReturn"}
 ColHelpers == {"SetCollateralReturnAndTotal", "SetTotalCollateralAndReturn", "AddInputsFromAndChangeWithCollateralReturn"}
@@ -69,6 +70,9 @@ Op(e) ==
   /\ UNCHANGED <<env, pp, keys, byron, lastTx, scripts>>
   /\ IF Has(e.r, "panic") THEN Fail("C05", "Builder/" \o e.op \o "/panic", e.sc, e.r.panic) ELSE TRUE
   /\ balanced' = (IF e.op \in Balancing THEN Has(e.r, "ok") ELSE IF Has(e.r, "ok") THEN FALSE ELSE balanced)
+  \* stale: balancing reported success earlier and other operations followed. A VALIDATING build (build_tx) that still produces a
+  \* transaction then has to satisfy the same rules ("reports that balancing succeeded and then produces a transaction", in any order of calls)
+  /\ stale' = (IF e.op \in Balancing THEN FALSE ELSE IF Has(e.r, "ok") THEN (balanced \/ stale) ELSE stale)
   /\ feeReq' = (IF ~Has(e.r, "ok") THEN feeReq ELSE IF e.op = "SetFee" THEN <<"exact", FromBE(e.n)>> ELSE IF e.op = "SetMinFee" THEN <<"notless", FromBE(e.n)>> ELSE feeReq)
   \* collateral fields: unset | set by a helper | set through a raw setter | a helper failed while nothing was set
   /\ colSt' = (IF e.op \in ColHelpers THEN (IF Has(e.r, "ok") THEN "helper" ELSE IF colSt \in {"unset", "failed"} THEN "failed" ELSE colSt)
@@ -97,9 +101,9 @@ Op(e) ==
 CostOf(v) == <<SPos(FromSmall(197209 + v)), SPos(Zero), SPos(One), SPos(FromSmall(23000)), SI(TRUE, FromSmall(5)), SPos(FromSmall(100))>>
 AllAttach == UNION {attach[p] : p \in 0..4}
 ScriptLockedAddr(a) == Len(a) >= 29 /\ (a[1] \div 16) \in {1, 3, 5, 7}
-WsScriptHashes(ws) == LET one(key) == {IF Elems(ws, key)[j].str \in DOMAIN scripts THEN scripts[Elems(ws, key)[j].str].hash ELSE <<0>> : j \in 1..Len(Elems(ws, key))} IN
-                      one(3) \cup one(6) \cup one(7)
-WsNativeHashes(B, ws) == {IF Span(B, Elems(ws,1)[j]) \in DOMAIN scripts THEN scripts[Span(B, Elems(ws,1)[j])].hash ELSE <<0>> : j \in 1..Len(Elems(ws,1))}
+WsScriptHashes(ws) == LET one(key, lang) == {IF <<lang, Elems(ws, key)[j].str>> \in DOMAIN scripts THEN scripts[<<lang, Elems(ws, key)[j].str>>].hash ELSE <<0>> : j \in 1..Len(Elems(ws, key))} IN
+                      one(3, 1) \cup one(6, 2) \cup one(7, 3)
+WsNativeHashes(B, ws) == {IF <<0, Span(B, Elems(ws,1)[j])>> \in DOMAIN scripts THEN scripts[<<0, Span(B, Elems(ws,1)[j])>>].hash ELSE <<0>> : j \in 1..Len(Elems(ws,1))}
 \* script hashes the BODY itself calls for (independent of what the harness says it attached)
 CredScript(c) == IF c.mt = 4 /\ Len(c.kids) = 2 /\ Small(c.kids[1].arg) = 1 THEN {c.kids[2].str} ELSE {}
 CertScripts(c) == IF CertKind(c) \in {0, 3, 4, 5, 6} THEN {} ELSE CredScript(c.kids[2])
@@ -171,15 +175,15 @@ ScriptChecks(e, tx, body, ws, sc, shape) ==
 EnvVals == [k \in DOMAIN env |-> env[k].value]
 Built(e) ==
   LET sc == e.sc tx == Parse(e.tx) IN
-  /\ UNCHANGED <<env, pp, keys, byron, balanced, feeReq, colSt, colPct, scripts, attach, sdhFresh, rereg>>
+  /\ UNCHANGED <<env, pp, keys, byron, balanced, stale, feeReq, colSt, colPct, scripts, attach, sdhFresh, rereg>>
   /\ lastTx' = e.tx
   /\ IF IsErr(tx) \/ tx.mt # 4 \/ Len(tx.kids) # 4 THEN Fail("C03", "Built/malformed-transaction", sc, tx.why) ELSE
      LET body == tx.kids[1] ws == tx.kids[2] outs == Elems(body, 1) fee == ArgN(GetK(body, 2))
          shape == <<Len(Elems(body,0)), Len(outs), HasK(body,4), HasK(body,5), HasK(body,9), HasK(body,22), HasK(body,13), Len(GetK(body,2).arg), balanced, e.unsafe>> IN
      \* ---- C05 preservation of value
-     /\ (balanced => /\ Obl("C05", sc, shape)
+     /\ (balanced \/ (stale /\ ~e.unsafe) => /\ Obl("C05", sc, <<shape, stale>>)
                      /\ IF ~InputsKnown(body, EnvVals) THEN Fail("C05", "Built/input-not-in-environment", sc, 0)
-                        ELSE Chk(Balanced(body, EnvVals, pp), "C05", "Built/unbalanced", sc,
+                        ELSE Chk(Balanced(body, EnvVals, pp), "C05", IF balanced THEN "Built/unbalanced" ELSE "Built/unbalanced-after-later-operations", sc,
                                  [consumed |-> ToBE(Consumed(body, EnvVals, pp).coin, 0), produced |-> ToBE(Produced(body, pp).coin, 0), unsafe |-> e.unsafe]))
      \* ---- C07 minimum ADA, value size, transaction size
      /\ Obl("C07", sc, shape)
@@ -236,7 +240,11 @@ Built(e) ==
                         d |-> [got |-> Cardinality(gotHashes), need |-> Cardinality(need), boots |-> Len(boots), needB |-> Cardinality(needB)]])
              ELSE /\ (IF Span(e.signed.bytes, stx.kids[1]) = Span(e.tx, body) THEN TRUE       \* signing did not alter the body
                        ELSE Emit([t |-> "TOOLFAIL", what |-> "the signed transaction carries a different body", sc |-> sc, d |-> 0]))
-                  /\ (balanced => /\ Obl("C06", sc, <<shape, Len(vks), Len(boots), Len(GetK(body,2).arg)>>)
+                  \* a caller-fixed fee that the validating build accepted is at least the minimum ("used exactly or the build fails")
+                  /\ (feeReq[1] = "exact" /\ ~e.unsafe /\ ~balanced =>
+                        /\ Obl("C06", sc, <<"fixed-fee-accepted", Len(vks), Len(boots), excost.n # Zero, refBytes > 0>>)
+                        /\ Chk(Geq(fee, minfee), "C06", "Built/fixed-fee-below-minimum-accepted", sc, [fee |-> ToBE(fee, 0), min |-> ToBE(minfee, 0), size |-> size]))
+                  /\ (balanced \/ (stale /\ ~e.unsafe) => /\ Obl("C06", sc, <<shape, stale, Len(vks), Len(boots), Len(GetK(body,2).arg)>>)
                                   /\ Chk(Geq(fee, minfee), "C06", "Built/fee-below-minimum", sc,
                                          [fee |-> ToBE(fee, 0), min |-> ToBE(minfee, 0), size |-> size, vkeys |-> Len(vks), boots |-> Len(boots), unsafe |-> e.unsafe]))
                   /\ Chk(e.unsafe \/ size <= pp.maxtx, "C07", "Built/transaction-too-large", sc, [size |-> size])
@@ -250,7 +258,7 @@ Built(e) ==
 \* changes, so the sizes follow from the span of the coin item inside the output bytes.
 CoinItem(o) == LET v == OutValItem(o) IN IF v.mt = 0 THEN v ELSE v.kids[1]
 MinAda(e) ==
-  /\ UNCHANGED <<env, pp, keys, byron, balanced, feeReq, lastTx, colSt, colPct, scripts, attach, sdhFresh, rereg>>
+  /\ UNCHANGED <<env, pp, keys, byron, balanced, stale, feeReq, lastTx, colSt, colPct, scripts, attach, sdhFresh, rereg>>
   /\ LET sc == e.sc o == Parse(e.out) cpb == FromBE(e.cpb_n) IN
      IF IsErr(o) THEN Fail("C07", "MinAda/output-malformed", sc, o.why)
      ELSE IF Has(e.r, "panic") THEN Fail("C07", "MinAda/panic", sc, e.r.panic)
@@ -267,8 +275,8 @@ MinAda(e) ==
                  [c |-> e.r.v_n, need |-> ToBE(Mul(cpb, FromSmall(160 + size1)), 0), size |-> size1])
           /\ Chk(Leq(c, Mul(cpb, FromSmall(160 + size8))), "C07", "MinAda/result-above-the-8-byte-bound", sc,
                  [c |-> e.r.v_n, bound |-> ToBE(Mul(cpb, FromSmall(160 + size8)), 0)])
-Other(e) == UNCHANGED <<env, pp, keys, byron, balanced, feeReq, lastTx, colSt, colPct, scripts, attach, sdhFresh, rereg>>
-Init == l = 1 /\ env = <<>> /\ pp = <<>> /\ keys = <<>> /\ byron = <<>> /\ balanced = FALSE /\ feeReq = <<"none">> /\ lastTx = <<>> /\ colSt = "unset" /\ colPct = <<>> /\ scripts = <<>> /\ attach = [p \in 0..4 |-> {}] /\ sdhFresh = <<>> /\ rereg = FALSE
+Other(e) == UNCHANGED <<env, pp, keys, byron, balanced, stale, feeReq, lastTx, colSt, colPct, scripts, attach, sdhFresh, rereg>>
+Init == l = 1 /\ env = <<>> /\ pp = <<>> /\ keys = <<>> /\ byron = <<>> /\ balanced = FALSE /\ stale = FALSE /\ feeReq = <<"none">> /\ lastTx = <<>> /\ colSt = "unset" /\ colPct = <<>> /\ scripts = <<>> /\ attach = [p \in 0..4 |-> {}] /\ sdhFresh = <<>> /\ rereg = FALSE
 Next == /\ l <= Len(Rec)
         /\ LET e == Rec[l] IN
            CASE e.ev = "Reset" -> Reset(e)
